@@ -202,6 +202,10 @@ def write_frame_obligations(repo, tabs, roots, allowed, label):
             recs.append({"name": "%s/W/%s:%s@%d" % (key, w.what, w.receiver, w.line), "kind": "W",
                          "status": "discharged" if ok else "failed", "solver": "frames",
                          "note": "%s: write to %s receiver %s (%s)" % (label, w.cls, w.receiver, w.what)})
+            if not ok and label == "validation":
+                # state kept across sub-validations or calls: look for an input on the real code (references, histories)
+                recs[-1]["rt_search"] = [("pyvc.rt_ref", {"cmd": "search"}, "ref"),
+                                         ("pyvc.rt_hist", {"cmd": "search", "maxlen": 2, "configs": [[True, "default"], [False, "default"]]}, "hist")]
     recs.append({"name": "frames/W/reachable", "kind": "W", "status": "discharged" if len(reach) >= 40 else "failed", "solver": "frames",
                  "note": "%d functions reachable from %s analysed" % (len(reach), roots)})
     return recs, reach
